@@ -350,7 +350,11 @@ def should_refuse(op, nd, nv, f, dims):
     vm = f.vdim_mapping
     if f.vdims is None:
         return True
-    return any(v not in vm or vm[v] not in dims for v in f.vdims)
+    if any(v not in vm or vm[v] not in dims for v in f.vdims):
+        return True
+    # curl needs every axis to carry a component (reversed mapping); for div a non-injective mapping
+    # is left open (see 'free' in run_case)
+    return op == "curl" and sorted(vm[v] for v in f.vdims) != sorted(dims)
 
 
 def mapping_is_bijection(f, dims):
@@ -488,7 +492,9 @@ def oracle_ok(rec, c, f, dims, res, op, tol, exact, fully_valid, scale):
                         x, y = result_by_axis(orr, dims), result_by_axis(rr, dims)
                     else:
                         x, y = orr.array, rr.array
-                    if x is None or y is None or not close(x, y, tol if exact else 4 * tol):
+                    # the rotated mesh is computed with floating cos/sin: its cells carry rounding even in the
+                    # exact regime, so this clause is always compared in the tolerance form
+                    if x is None or y is None or not close(x, y, 4 * TOL * scale):
                         flag("rot90-commute-" + op)
                     rec.setdefault("meta", {})["rot90"] = True
 
